@@ -172,6 +172,7 @@ def run(ck):
     nontrivial = set()
     samples = []
     first_disagree = None
+    disagree_by_shape = {}
     nofault_by_case = {}
     for r in recs:
         cnt[r["type"]] += 1
@@ -216,6 +217,8 @@ def run(ck):
             if d:
                 mvi["disagree"] += 1
                 first_disagree = first_disagree or (r, d)
+                shape = "limit" if " limit " in r["stmt"] else r["stmt"].split()[0].lower()
+                disagree_by_shape.setdefault(shape, (r, d))
             if r["fired"] and (r["class"] != "ok" or not r["rows_eq"]):
                 nontrivial.add((r["stmt"], r["op"], r["k"], r["kind"], r["engine"]))
             if len(samples) < 6 and r["fired"]:
@@ -248,13 +251,16 @@ def run(ck):
             if r["dml"] and r["root"] and r["class"] == "err" and not r["tables_eq_pre"]:
                 info["post-commit-injection-at-dml-task(hook artefact)"] += 1
 
-    if first_disagree:
+    if first_disagree and first_disagree[0]["type"] != "fault":
         r, d = first_disagree
-        # model != impl: is the *property* at stake on this input?  (the oracle already ran on it
-        # and on all others; a bare disagreement is reported with the pair)
-        ck.report("corr:stream-model", "L9 model and implementation disagree: %s on `%s` fault %s#%s %s" % ("; ".join(d), r["stmt"], r.get("op"), r.get("k"), r.get("kind")),
+        ck.report("corr:stream-model/fault-free", "L9 model and implementation disagree: %s on `%s`" % ("; ".join(d), r["stmt"]),
+                  replay={"engine": r["engine"], "setup": r["setup"], "stmt": r["stmt"]}, found_input=False)
+    for shape, (r, d) in sorted(disagree_by_shape.items()):
+        # model != impl: is the *property* at stake on this input?  (the oracle ran on it and on all
+        # others; a bare disagreement is reported with the pair, one report per statement shape)
+        ck.report("corr:stream-model/" + shape, "L9 model and implementation disagree: %s on `%s` fault %s#%s %s" % ("; ".join(d), r["stmt"], r.get("op"), r.get("k"), r.get("kind")),
                   replay={"engine": r["engine"], "setup": r["setup"], "stmt": r["stmt"], "record": {k: v for k, v in r.items() if k not in ("setup",)}},
-                  found_input=bool(oracle(r)) if r["type"] == "fault" else False)
+                  found_input=bool(oracle(r)))
 
     # ---- the channel machine vs the real async_broadcast crate
     chreq = os.path.join(ck.work, "chan.txt")
